@@ -21,6 +21,7 @@ struct vt_event {
     int op;              /* reduce op: 1 MAX 2 MIN 3 SUM 4 other */
     int rc;              /* code returned to the caller */
     long long val;       /* first reduced value handed back (Allreduce) / bytes (I/O with predefined type) */
+    long long own;       /* Allreduce: this rank's first contribution */
 };
 extern struct vt_event vt_ev[VT_MAX];
 extern int vt_n;                 /* number of recorded events */
@@ -32,6 +33,7 @@ extern int vt_type_live;         /* datatypes created minus datatypes freed (C17
 extern int vt_comm_live;
 /* optional file image for harnesses that model content */
 extern unsigned char *vt_file; extern long long vt_file_len;
+extern long long vt_force_val[4]; extern int vt_force_cnt, vt_force_idx;   /* forced Allreduce results (self-composition) */
 void vt_reset(int rank, int nprocs);
 int vt_count_kind(int kind);
 int vt_is_collective_kind(int kind);
